@@ -267,7 +267,7 @@ def class_compose(ctx):
     return out
 
 
-@rule("CLASS-ADDEND", ["C09", "C07", "C01", "C20"], floor=3)
+@rule("CLASS-ADDEND", ["C09", "C07", "C01", "C20", "C10"], floor=3)
 def class_addend(ctx):
     """Inside [...], a multi-character escape is united into the addend (never dropped, never subtracted);
     the nested class after '-[' becomes the subtrahend."""
@@ -309,6 +309,10 @@ def class_addend(ctx):
             kinds.add("first")
     for k in ("union", "first", "nested"):
         out.append(ok("store|" + k) if k in kinds else bad("store|" + k, "parse_character_class lost the Some(..) store of kind %s" % k, b.loc()))
+    for i in out:
+        # what \p{X}, \d .. stand for inside brackets (C10) rests on the escape being kept and united; the nested
+        # class after '-[' is not about the escapes
+        i.props = ["C09", "C07", "C01", "C20"] + ([] if i.key == "store|nested" else ["C10"])
     return out
 
 
